@@ -74,6 +74,14 @@ def gen_cases(ctx):
         a_first = [n for n in names if n[0] in "pA"]
         b_names = [n for n in names if n[0] == "B"]
         cases.append({"id": "g%dr" % j, "naccts": 3, "blocks": blocks, "arrivals": a_first + list(reversed(b_names)), "mode": "crash"})
+    # the same reorganisations under a consensus whose IsConnectedBlock only knows MAIN-chain blocks (raft / StubConsensus
+    # semantics, engine `haswal`): a stored side-branch block that is delivered again is processed again, so after a crash before
+    # the reorg marker feeding the same blocks again MUST converge (the known replay finding is specific to the SBP/DPoS test
+    # "stored under its hash")
+    for j, (p, la, lb) in enumerate(geo[:3] if quick else geo):
+        blocks = cd.two_branches(p, la, lb, shared=(j % 2 == 1))
+        names = [b["name"] for b in blocks]
+        cases.append({"id": "w%d" % j, "naccts": 3, "blocks": blocks, "arrivals": list(names), "mode": "crash", "haswal": True})
     for i in range(6 if quick else 300):
         blocks = cd.rnd_tree(rng, rng.choice([3, 4, 5, 6]), pbad=0.2, pno=0.0)
         for b in blocks:                          # every block carries a tx: empty test-genesis root has no state marker
@@ -197,7 +205,7 @@ def run(ctx):
             elif not kr["converged"]:
                 arr = ua[k] if k < len(ua) else None
                 later_marker = arr is not None and any(("marker" in units[j]["classes"]) for j in range(k, len(units)) if ua[j] == arr)
-                if later_marker and kr["best"] == kr.get("old_tip"):
+                if later_marker and kr["best"] == kr.get("old_tip") and not c.get("haswal"):
                     what = (REPLAY_KEY, "crash at unit %d (during a reorganisation, before the marker): restart on the old tip, replay of the same blocks does not reorganise" % k)
                 else:
                     what = ("C06:not-converged", "replay after crash at unit %d does not reach the crash-free final state" % k)
